@@ -639,9 +639,10 @@ WS_VARIED = [' ', '  ', '\t', ' \t ', '\x0b', '\x0c', u'\xa0', u'\ufeff', u'\u20
 LT_BASIC = ['\n']
 LT_ALL = ['\n', '\r', '\r\n', u'\u2028', u'\u2029', '\n\n', ' \n  ', u'\u2028\n']
 LT_NO_LSPS = ['\n', '\r', '\r\n', '\n\n', ' \n  ', '\r\n\t']
-COMMENTS_INLINE = ['/*c*/', '/**/', '/* a * b / */', u'/*\u00e9*/', '/*//*/']
+COMMENTS_INLINE = ['/*c*/', '/**/', '/* a * b / */', u'/*\u00e9*/', '/*//*/', '/* t */', '/*\t*/', '/* */']
 COMMENTS_ML = ['/*c\nc*/', '/*\n*/', '/*\r\n * x\r\n */', u'/*a\u2028b*/', u'/*\u2029*/', '/*\r*/']
-COMMENTS_LINE = ['//c\n', '//\n', '// a /* b\n', u'//\u00e9\r\n', '//x\r', u'//c\u2028', u'// d\u2029']
+COMMENTS_LINE = ['//c\n', '//\n', '// a /* b\n', u'//\u00e9\r\n', '//x\r', u'//c\u2028', u'// d\u2029',
+                 '// t  \n', '//\t\n', '// \n', u'//u\u00a0\n', '//v \t\r\n', '//  lead\n']
 
 _join_cache = {}
 
